@@ -180,6 +180,53 @@ fn shard(ctx: &ShardCtx) -> ShardResult {
     }
     let mut i = ctx.first_index;
     let clock = ctx.clock();
+    // corpus programs (contracts first: storage, contract-call, asm-block and message
+    // instructions that generated scripts never contain): every stage of the real pipeline
+    // is round-tripped; the build from the re-parsed IR must produce the same bytecode
+    if ctx.first_index == 0 {
+        if let Ok(root) = crate::e2e::prepare("C05") {
+            let all = crate::e2e::list_buildable_tests(&root);
+            let mine = crate::e2e::slice_for(&all, ctx.seed, ctx.shard, ctx.nshards);
+            for (name, dir, _) in mine {
+                if clock.elapsed() > ctx.budget.mul_f64(ctx.tier.pick(0.3, 0.5)) {
+                    break;
+                }
+                let profile = if hash64(name.as_bytes()) % 2 == 0 { Profile::Debug } else { Profile::Release };
+                ctx.begin_case(0, &format!("e2e {name}"), &res);
+                let normal = catch(AssertUnwindSafe(|| plain_build(&dir, profile)));
+                let cfg = HookCfg { roundtrip_each: true, substitute_final: true, ..Default::default() };
+                let (sub, log) = with_hook(cfg, false, || catch(AssertUnwindSafe(|| plain_build(&dir, profile))));
+                ctx.end_case();
+                let Ok(Ok(normal)) = normal else {
+                    res.count("e2e_not_buildable");
+                    continue;
+                };
+                res.evaluations += 1;
+                res.count("e2e_programs_roundtripped");
+                let replay = json!({"e2e": name, "profile": profile.name()});
+                classify(&log, profile, &mut res, &replay, &mut kinds);
+                match sub {
+                    Ok(Ok(sub)) => {
+                        res.count("substituted_builds_executed");
+                        if sub.bytecode.bytes != normal.bytecode.bytes {
+                            res.violation(format!("reparsed-ir-gives-different-bytecode:e2e:{name}"), format!("e2e program {name} ({}): the build from parse(print(final ir)) differs from the normal build", profile.name()), replay);
+                        } else {
+                            res.count("substituted_bytecode_identical");
+                        }
+                        if log.rt.len() >= 5 {
+                            res.note_nontrivial(hash64(format!("{name}{}", profile.name()).as_bytes()));
+                        }
+                    }
+                    Ok(Err(_)) => {
+                        if !log.rt.iter().any(|e| e.kind.starts_with("parse-failure")) {
+                            res.violation(format!("reparsed-ir-not-compilable:e2e:{name}"), format!("e2e program {name} ({}) compiles normally but not from parse(print(final ir))", profile.name()), replay);
+                        }
+                    }
+                    Err((loc, msg)) => res.violation(format!("roundtrip-panic:{}", panic_signature(&loc, &msg)), format!("e2e program {name}: panic at {loc}: {}", msg.chars().take(160).collect::<String>()), replay),
+                }
+            }
+        }
+    }
     while clock.left() {
         let mut scratch = ShardResult::default();
         let case = case_at(ctx.seed ^ 0x0c05, ctx.shard, i / 2, 8, &mut scratch);
